@@ -767,7 +767,7 @@ def run_smbo_scenario(spec):
     real = out["real"]
     opt, rec, records, space = real["opt"], real["rec"], real["records"], real["space"]
     il, warm = holder["init_l"], holder["warm"]
-    bnew = (f"bnew {opt.init.n_inits} {1 if opt.replacement else 0} {1 if spec['opt'] == 'ForestOptimizer' else 0} {1 if spec['opt'] == 'LipschitzOptimizer' else 0} "
+    bnew = (f"bnew {opt.init.n_inits} {1 if opt.replacement else 0} 0 {1 if spec['opt'] == 'LipschitzOptimizer' else 0} "
             f"{len(il)} " + " ".join(" ".join(str(x) for x in p) for p in il) + f" {len(warm)} " +
             " ".join(" ".join(str(x) for x in p) + " " + tok_f(y) for p, y in warm))
     bnew = " ".join(bnew.split())
